@@ -21,7 +21,7 @@ import (
 // whole collection was examined.  Otherwise one failure yields two errors or none, depending on what else failed and — for
 // errors recorded by concurrently resolving siblings — on completion order.
 func scanTotal(c *Ctx) {
-	c.R.Rule("error-scan-total", "graphql.HasFieldError / GetFieldErrors scan every recorded error and equalPath compares every segment: the loop visits exactly [0,len) and is left early only towards the answer that one element can decide (found / differs)", 3)
+	c.R.Rule("error-scan-total", "graphql.HasFieldError / GetFieldErrors scan every recorded error and equalPath compares every segment: the loop visits exactly [0,len) and is left early only towards the answer that one element can decide (found / differs)", 1)
 	type spec struct {
 		fn        string
 		earlyOnly string // the only constant an early exit may lead to ("true", "false", "" = no early exit at all)
@@ -33,8 +33,19 @@ func scanTotal(c *Ctx) {
 		}
 		loops := an.Loops(fn)
 		if len(loops) == 0 {
-			c.R.Note(s.fn+"/scan", c.pos(fn.Pos()), "no loop in this function (delegates the scan); not judged here")
-			continue
+			// the scan was moved into a same-package helper: judge the helper's loop
+			for _, call := range an.CallsIn(fn, func(_ ssa.CallInstruction, ci an.CalleeInfo) bool {
+				return ci.Static != nil && ci.Static.Pkg != nil && ci.Static.Pkg.Pkg.Path() == pkgGraphql && len(ci.Static.Blocks) > 0
+			}) {
+				if hl := an.Loops(call.Common().StaticCallee()); len(hl) > 0 && len(loops) == 0 {
+					fn = call.Common().StaticCallee()
+					loops = hl
+				}
+			}
+			if len(loops) == 0 {
+				c.R.Note(s.fn+"/scan", c.pos(fn.Pos()), "no loop in this function or its direct helpers; not judged")
+				continue
+			}
 		}
 		for _, l := range loops {
 			key := s.fn + "/scan"
@@ -68,6 +79,12 @@ func scanTotal(c *Ctx) {
 				if e.From == l.Header {
 					continue // exhaustion
 				}
+				// visitor protocol: the exit is taken when a function-valued parameter said "stop" — whether stopping is
+				// justified is the caller's closure's business and is not judged here
+				if delegatedStop(fn, e) {
+					c.R.Note(key+"/early-exit", c.ipos(e.From.Instrs[len(e.From.Instrs)-1]), "early exit decided by a visitor function passed in by the caller; not judged")
+					continue
+				}
 				for blk := range an.Reach(e.To, nil) {
 					for _, in := range blk.Instrs {
 						r, ok := in.(*ssa.Return)
@@ -94,3 +111,33 @@ func scanTotal(c *Ctx) {
 }
 
 var _ = token.ADD
+
+
+// delegatedStop: the edge leaves the loop on the result of calling a function-typed parameter of fn.
+func delegatedStop(fn *ssa.Function, e an.Edge) bool {
+	if len(e.From.Instrs) == 0 {
+		return false
+	}
+	iff, ok := e.From.Instrs[len(e.From.Instrs)-1].(*ssa.If)
+	if !ok {
+		return false
+	}
+	v := iff.Cond
+	for i := 0; i < 4; i++ {
+		if u, ok := v.(*ssa.UnOp); ok && u.Op == token.NOT {
+			v = u.X
+			continue
+		}
+		break
+	}
+	call, ok := v.(*ssa.Call)
+	if !ok || call.Call.IsInvoke() || call.Call.StaticCallee() != nil {
+		return false
+	}
+	for _, p := range fn.Params {
+		if call.Call.Value == ssa.Value(p) {
+			return true
+		}
+	}
+	return false
+}
